@@ -4324,6 +4324,12 @@ class Session(_SessionClassMethods, EventTarget):
                     _resolve_conflict_map,
                 )
 
+            # a refresh of the destination in the middle of the loop above
+            # (e.g. it was expired) may have re-created a composite from
+            # column values that were merged only afterwards
+            for comp in mapper.composites:
+                merged_dict.pop(comp.key, None)
+
         if not load:
             # remove any history
             merged_state._commit_all(merged_dict, self.identity_map)
